@@ -180,6 +180,9 @@ class Builder:
             nb = 0
             while depth < 3 and self.budget > 0 and rng.random() < 0.22 and nb < 2:
                 nb += 1
+                if self.coarse and rng.random() < 0.35:
+                    # the documented place of the order of a branch edge in a coarse fragment: [#A]=([#B])
+                    self.toks.append(['B', rng.choice('.-=#$:')])
                 self.toks.append(['('])
                 self.chain(depth + 1, first=False)
                 self.toks.append([')'])
@@ -414,14 +417,14 @@ class C13(common.Prop):
     vo_deps = ['theories/Frag/StripCheck.vo']
     prop_file = 'theories/Properties/C13.v'
     case_requires = ('From Coq Require Import String.\nFrom Coq Require Import List Ascii ZArith Bool.\n'
-                     'From CGV Require Import Base.PyBase Base.PyVal Frag.NDict Frag.StripImpl Frag.FragText Frag.SmilesParse Frag.Template Frag.TemplateFinal Frag.StripCheck.')
+                     'From CGV Require Import Base.PyBase Base.PyVal Frag.NDict Frag.StripImpl Frag.FragText Frag.FragTextX Frag.SmilesParse Frag.Template Frag.TemplateFinal Frag.StripCheck.')
     quick_cases = 2400
     thorough_cases = 40000
     extended_cases = 12000
     shard = 200
     fail_text = dict([(c + 10 * k, CLAUSES[c] + (' [input in defect class %s]' % CLASSES[k] if k else ''))
                       for c in CLAUSES for k in (0, 3)] +
-                     [(97, 'harness: generated tokens are outside the stated domain (wf)'),
+                     [(97, 'harness: generated tokens are outside the stated domain (wfx)'),
                       (98, 'harness: python and Coq render the tokens differently')])
 
     # -- cases -----------------------------------------------------------------------------
@@ -449,6 +452,9 @@ class C13(common.Prop):
             # witnesses of the two repaired classes (f3554b8, 0d0f450) and of the known defect class
             plain([C, R('1', '='), C, C, R('1')], {1: [D()]}),                       # C=1[$]CC1
             plain([C], {0: [D(sym='.')]}),                                           # C.[$]
+            plain([K('#A'), ['B', '='], ['('], K('#B'), [')'], K('#C')], {}),            # [#A]=([#B])[#C]
+            plain([K('#A'), ['B', '#'], ['('], K('#B'), [')'], ['B', '.'], ['('], K('#C'), [')'], K('#D')],
+                  {4: [D('>', 'a', '=')], 9: [D()]}, lead=[D()]),                    # [$][#A]#([#B])=[>a].([#C])[#D][$]
             plain([A('c')], {0: [D(sym=':')]}),                                      # c:[$]
             plain([C, C, O], {0: [D('>', 'a1', ':')]}),                              # C:[>a1]CO
             plain([A('c'), R('1'), A('c'), A('c'), A('c'), A('c'), A('c'), R('1')], {}, lead=[D(sym=':')]),   # [$]:c1ccccc1
